@@ -4,7 +4,7 @@
    driver only reads and prints numbers. *)
 From Coq Require Import FMapPositive.
 From Lace Require Import Word Machine Isa Vm RunProofs.
-From Lace Require Asm.
+From Lace Require Asm Cli.
 
 (* ------------------------------------------------------------------ *)
 (** * Helpers *)
@@ -185,3 +185,40 @@ Fixpoint run_asm_seq (feat : bool) (n : nat) (args : list N) (sym : Asm.symtab) 
 Definition run_asm (args : list N) : list (list N) :=
   let feat := negb (hdN args =? 0) in
   run_asm_seq feat (N.to_nat (hdN (tlN args))) (tlN (tlN args)) [].
+
+(* ------------------------------------------------------------------ *)
+(** * CLI-level cases (C06, C07, C08)
+
+    OBJ  = feat nchars char*            -> exit nbytes byte*           (`lace compile` verdict + object bytes)
+    LC3  = feat fuel nbytes byte* ninp inp*   -> as C03 (loader for .lc3/.obj files, then run); 5 c = rejected
+    SRC  = feat fuel nchars char* ninp inp*   -> 6 exit = assembly failed; otherwise as C03 *)
+
+Definition run_obj (args : list N) : list (list N) :=
+  let feat := negb (hdN args =? 0) in
+  let '(src, _) := take (N.to_nat (hdN (tlN args))) (tlN (tlN args)) in
+  match Cli.assembles feat src with
+  | Asm.Ok im => let bs := Cli.compile_bytes im in [0 :: N.of_nat (length bs) :: bs]
+  | Asm.Err _ _ _ => [[1; 0]]
+  | Asm.Bad _ => [[101; 0]]
+  end.
+
+Definition run_lc3 (args : list N) : list (list N) :=
+  let feat := negb (hdN args =? 0) in
+  let fuel := N.to_nat (hdN (tlN args)) in
+  let '(bytes, rest) := take (N.to_nat (hdN (tlN (tlN args)))) (tlN (tlN (tlN args))) in
+  let '(inp, _) := take (N.to_nat (hdN rest)) (tlN rest) in
+  match Cli.load_file bytes inp with
+  | LoadExit c => [[5; c]]
+  | Loaded st => [enc_vm (vm_run feat fuel st [])]
+  end.
+
+Definition run_src (args : list N) : list (list N) :=
+  let feat := negb (hdN args =? 0) in
+  let fuel := N.to_nat (hdN (tlN args)) in
+  let '(src, rest) := take (N.to_nat (hdN (tlN (tlN args)))) (tlN (tlN (tlN args))) in
+  let '(inp, _) := take (N.to_nat (hdN rest)) (tlN rest) in
+  match Cli.run_cmd feat src inp fuel with
+  | Cli.RunAsmError c => [[6; c]]
+  | Cli.RunLoadExit c => [[5; c]]
+  | Cli.RunLoaded r => [enc_vm r]
+  end.
